@@ -41,11 +41,13 @@ static inline SyncReceiveBuffer *iora_make_srb(Impl *im)
 }
 
 /* ---- Impl::ParkGuard: reference members bound here; constructor / destructor BODIES are extracted (ParkGuard_ctor_body, ParkGuard_dtor) ---- */
-typedef struct { size_t *counter; iora_cv *teardownCv; const iora_mutex *guard; } iora_parkguard;
+/* the reference member `counter` is the pointer `counter_ref`: there is deliberately NO field named `counter`, so a use of the member that no
+ * declared rule rewrites does not compile (extraction break) instead of silently becoming pointer arithmetic */
+typedef struct { size_t *counter_ref; iora_cv *teardownCv; const iora_mutex *guard; } iora_parkguard;
 static inline void ParkGuard_ctor_body(iora_parkguard *self);
 static inline void ParkGuard_dtor(iora_parkguard *self);
 static inline size_t *iora_pg_counter(iora_parkguard *g)
-{ IORA_ASSERT(g->guard->held, "LK3 park counter (waiters / activeReceives) modified with syncMutex held"); return g->counter; }
+{ IORA_ASSERT(g->guard->held, "LK3 park counter (waiters / activeReceives) modified with syncMutex held"); return g->counter_ref; }
 static inline iora_parkguard iora_parkguard_make(size_t *c, iora_cv *tcv, const iora_mutex *m)
 { iora_parkguard g = { c, tcv, m }; ParkGuard_ctor_body(&g); return g; }
 static inline void iora_parkguard_dtor(iora_parkguard *g) { ParkGuard_dtor(g); }
